@@ -132,6 +132,22 @@ def record(workdir):
                 continue
             if not ln.startswith('{"id"') or not ln.endswith("}"):
                 continue
+            if '"fn":"wcsicmp_s"' in ln or '"fn":"wcsnat' in ln:
+                # the case folding of the contract is the one-to-one folding of ASCII; calls with other characters in an operand are counted, not judged
+                e = json.loads(ln)
+
+                def chars(p, lim):
+                    out = []
+                    for j in range(max(0, lim)):
+                        if p <= 0 or p - 1 + j >= len(e["pre"]):
+                            break
+                        out.append(e["pre"][p - 1 + j])
+                        if out[-1] == 0:
+                            break
+                    return out
+                if any(c > 127 for c in chars(e["d"], e["dmax"]) + chars(e["s"], e["slen"])):
+                    skipped += 1
+                    continue
             eid += 1
             origin[eid] = name
             events.append('{"slack":1,"id":%d,' % eid + ln[ln.index(",") + 1:])
